@@ -5,6 +5,7 @@ import (
 
 	"github.com/tobgu/qframe"
 	"github.com/tobgu/qframe/config/eval"
+	"github.com/tobgu/qframe/types"
 	"pgregory.net/rapid"
 
 	"verifharness/ev"
@@ -159,6 +160,20 @@ func propC07(t *rapid.T) {
 	}
 	if diff := hx.Diff(wantT, got); diff != "" {
 		t.Fatalf("Eval result differs from model: %s\n%s\nresult %s", diff, desc(), got.String())
+	}
+	// two further Evals on the result, each adding a column of its own: the first of them still holds its column after
+	// the second has run (siblings derived from one parent)
+	c0 := types.ColumnName(in.Cols[0].Name)
+	parent := res.Eval("zz-sib-p", qframe.Val(c0)) // (a column reference: stored without temporaries, so nothing is dropped afterwards)
+	if sa := parent.Eval("zz-sib-a", qframe.Val(c0)); sa.Err == nil {
+		before, err1 := hx.Observe(sa)
+		_ = parent.Eval("zz-sib-b", qframe.Val(c0))
+		_ = parent.Eval("zz-sib-d", qframe.Val(2.5))
+		_ = parent.Eval("zz-sib-c", qframe.Expr("+", qframe.Val(2.5), qframe.Val(1.0)))
+		after, err2 := hx.Observe(sa)
+		if err1 != nil || err2 != nil || hx.Diff(before, after) != "" {
+			t.Fatalf("a frame returned by Eval changed when its parent was evaluated again with another destination: %v %v %s\n%s", err1, err2, hx.Diff(before, after), desc())
+		}
 	}
 	// no temporary survives under any access path: a name the result does not list is not reachable by name either
 	for _, name := range tempLikeNames {
